@@ -453,13 +453,15 @@ PROPS["C15"] = Prop(
     vunits=[V_STRLIT, V_INTERP],
     assumptions=[
         "the generated parser passes a string token's (text, slots) payload unchanged into the AST, so V-strlit's postcondition is V-interp's precondition",
-        "escape decoding (\\\\ \\\" \\$ \\n \\r \\xHH) and the error positions of next_str_literal are verified only for absence of panics, not against a decoding table",
+        "escape decoding: for a NON-interpolated literal the token text is proved equal to a forward-scan specification of the source (\\\\ \\\" \\$ \\n \\r \\xHH, "
+        "errors with the offending character and its position); for an interpolated literal only the slot contract is proved, not the decoding outside slots; "
+        "an unterminated literal (end of input before the closing quote) is outside the contract",
         "strings as byte vectors: `+`, `==`, indexing on bytes are covered by V-binop / V-eq / V-expr; ->len() (String::len after from_utf8) is a std contract",
         "the brace counter is an i32: inputs of 2^31 or more characters are outside the contract (a slot with 2^31 nested `{` would overflow it)",
         "the slot's own lexer + generated parser are external (uninterpreted)",
     ],
     trusted_base=VERUS_TRUST,
-    not_covered=["the escape decoding table", "lexing of the rest of the file", "->len()", "the parser"],
+    not_covered=["escape decoding inside interpolated literals", "lexing of the rest of the file", "the parser"],
 )
 
 
@@ -537,3 +539,4 @@ PROPS["C15"].not_covered = [x for x in PROPS["C15"].not_covered if x != "->len()
 PROPS["C15"].assumptions = PROPS["C15"].assumptions + [
     "V-typefns: `->len()` = number of bytes of the receiver, for any string; std contracts assumed: String::from_utf8 yields a String with exactly those bytes, "
     "String::len is its byte length, chars().count() its character count; the lookup of `len` in the type-function table (eval_expr Prop arm with type_prop) is V-expr's"]
+PROPS["C18"]._v = PROPS["C18"]._v + [V_STRLIT]       # position of lexical errors inside string literals
